@@ -62,6 +62,8 @@ def to_xml(spec):
         at += ' name="%s"' % g['name']
       if g.get('contype') is not None:
         at += ' contype="%d" conaffinity="%d"' % (g['contype'], g['conaffinity'])
+      if g.get('margin'):
+        at += ' margin="%r"' % float(g['margin'])
       out.append('%s  <geom %s/>' % (sp, at))
     for c in kids[i]:
       out += body_xml(c, ind + 1)
@@ -76,7 +78,7 @@ def to_xml(spec):
   lines.append('  <worldbody>')
   for g in spec.get('world_geoms', []):
     lines.append('    <geom type="%s" size="%s" pos="%s" quat="%s"%s/>' % (g['type'], fmt(g['size']), fmt(g.get('pos', (0, 0, 0))), fmt(g.get('quat', (1, 0, 0, 0))),
-                                                                   (' name="%s"' % g['name']) if g.get('name') else ''))
+                                                                   ((' name="%s"' % g['name']) if g.get('name') else '') + ((' margin="%r"' % float(g['margin'])) if g.get('margin') else '')))
   for r in kids[-1]:
     lines += body_xml(r, 2)
   lines.append('  </worldbody>')
